@@ -473,6 +473,7 @@ package keyvalue
 //@   ensures "src-kept" srcKept(file)
 //@   ensures "data-error" implies(file != nil && isReg(old(srcMode(file))) && old(srcDataErr(file)) != nil, err == old(srcDataErr(file)) && world() == old(world()) && implies(isMem(fs), memSame(fs)))
 //@   ensures "mem-data-error" [C14] implies(isMem(fs) && file != nil && old(srcDataErr(file)) != nil, err != nil && memSame(fs))
+//@   ensures "mem-world" implies(isMem(fs), world() == old(world()))
 //@   ensures "mem-delete" implies(isMem(fs) && file == nil, err == nil && !kvHas(fs, path) && memSameExcept(fs, path) && world() == old(world()))
 //@   ensures "mem-store" implies(isMem(fs) && file != nil && old(srcDataErr(file)) == nil, err == nil && kvHas(fs, path) && memSameExcept(fs, path) && world() == old(world()) &&
 //@                     isType(kvRec(fs, path), mem.fileRecord) && memRec(fs, path).store == ms(fs) && memRec(fs, path).path == path &&
@@ -809,7 +810,7 @@ package keyvalue
 //@   props C01 C04 C05 C14 C03
 //@   requires fsOK(fs)
 //@   modifies world()
-//@   ensures "gate" [C04] implies(!VP(name), info == nil && pathErr(err, "stat", name) && errIs(err, hackpadfs.ErrInvalid) && world() == old(world()))
+//@   ensures "gate" [C04] implies(!VP(name), info == nil && pathErr(err, "stat", name) && errIs(err, hackpadfs.ErrInvalid) && innerErr(err) == hackpadfs.ErrInvalid && world() == old(world()))
 //@   ensures "typed" [C05] implies(err != nil, info == nil && pathErr(err, "stat", name))
 //@   ensures "mem-hit" implies(VP(name) && isMem(fs) && kvHas(fs, name), err == nil && isType(info, fileInfo) && infoOf(info).Path == name && isType(infoOf(info).Record, *fileData) &&
 //@                     infoRec(info) != nil && fresh(infoRec(info)) && infoRec(info).record == kvRec(fs, name) && infoRec(info).modeOverride == nil && infoRec(info).modTimeOverride == 0 &&
@@ -870,5 +871,42 @@ package keyvalue
 //@                     err == nil && !kvHas(fs, name) && memSameExcept(fs, name))
 //@   ensures "mem-world" implies(isMem(fs), world() == old(world()))
 //@   ensures "store-error" [C14] implies(VP(name) && isSerial(fs) && old(storeGetErr(fsStore(fs), name)) != nil, err != nil)
+//@   ensures "inv" fsInv(fs)
+//@   nopanic
+
+//@ spec baseOf(f *file) := fRec(f).record.(*BaseFileRecord)
+//@ spec newHandle(f *file, fs *FS, path string, flag int, mode hackpadfs.FileMode) := f != nil && fresh(f) && f.fileData != nil && fresh(f.fileData) && f.fileData.path == path && f.fileData.fs == fs &&
+//@        f.flag == flag && f.offset == 0 && !f.closed && f.fileData.modeOverride == nil && f.fileData.modTimeOverride == 0 &&
+//@        isBaseRec(fRec(f).record) && baseOf(f) != nil && fresh(baseOf(f)) && baseOf(f).mode == mode &&
+//@        fRec(f).dataDone == 0 && !oncedone(fRec(f).dataOnce) && !oncedone(fRec(f).dirNamesOnce) && !oncedone(fRec(f).modeOnce) && !oncedone(fRec(f).modTimeOnce) && !oncedone(fRec(f).sysOnce)
+
+//@ func (fs *FS) newFile(path string, flag int, mode hackpadfs.FileMode) (f *file)
+//@   props C01 C03
+//@   requires fs != nil
+//@   ensures "new" newHandle(f, fs, path, flag, mode)
+//@   nopanic
+
+//@ func (fs *FS) newDir(name string, perm hackpadfs.FileMode) (f *file)
+//@   props C01 C03
+//@   requires fs != nil
+//@   ensures "new" newHandle(f, fs, name, 0, hackpadfs.ModeDir | (perm & hackpadfs.ModePerm))
+//@   nopanic
+
+//@ func (fs *FS) Mkdir(name string, perm hackpadfs.FileMode) (err error)
+//@   props C01 C04 C05 C14 C03
+//@   requires fsOK(fs)
+//@   use dirValid(name)
+//@   modifies world(), mapOf(ms(fs).records)
+//@   ensures "gate" [C04] implies(!VP(name), isPathError(err) && pathOf(err) == name && errIs(err, hackpadfs.ErrInvalid) && world() == old(world()) && implies(isMem(fs), memSame(fs)))
+//@   ensures "typed" [C05] implies(err != nil, isPathError(err) && pathOf(err) == name)
+//@   ensures "mem-exists" [C01] implies(VP(name) && isMem(fs) && old(kvHas(fs, name)), errIs(err, hackpadfs.ErrExist) && memSame(fs))
+//@   ensures "mem-no-parent" [C01 C03] implies(VP(name) && isMem(fs) && !old(kvHas(fs, name)) && name != "." && !old(kvHas(fs, pdir(name))), errIs(err, hackpadfs.ErrNotExist) && memSame(fs))
+//@   ensures "mem-parent-not-dir" [C01 C03] implies(VP(name) && isMem(fs) && !old(kvHas(fs, name)) && name != "." && old(kvHas(fs, pdir(name))) && !old(memIsDir(fs, pdir(name))),
+//@                     errIs(err, hackpadfs.ErrNotDir) && memSame(fs))
+//@   ensures "mem-created" [C01 C03] implies(VP(name) && isMem(fs) && !old(kvHas(fs, name)) && (name == "." || (old(kvHas(fs, pdir(name))) && old(memIsDir(fs, pdir(name))))),
+//@                     implies(err == nil, kvHas(fs, name) && memSameExcept(fs, name) && isType(kvRec(fs, name), mem.fileRecord) &&
+//@                     memRec(fs, name).mode == hackpadfs.ModeDir | (perm & hackpadfs.ModePerm)) && implies(err != nil, memSame(fs)))
+//@   ensures "mem-world" implies(isMem(fs), world() == old(world()))
+//@   ensures "store-error" [C14] implies(VP(name) && isSerial(fs) && err == nil, errIs(old(storeGetErr(fsStore(fs), name)), hackpadfs.ErrNotExist))
 //@   ensures "inv" fsInv(fs)
 //@   nopanic
